@@ -55,6 +55,8 @@ def _reapply_defered_macro(
         expect_semicolon=False,
         file_string=reapplier.header_str,
     )
+    if not tokenizer.programs:
+        return []
     return tokenizer.programs[0]
 
 
